@@ -92,6 +92,22 @@ pub fn gen_schedule(u: &mut Unstructured) -> arbitrary::Result<String> {
         let (mi, ho) = if u.ratio(1, 2)? { ("0".to_string(), "0".to_string()) } else { (minute.clone(), hour.clone()) };
         return Ok(format!("{} {} {} {} *", mi, ho, dom, months.join(",")));
     }
+    if special == 8 {
+        // a day-of-month list that covers (almost) every day of the scheduled months, next to a
+        // restricted weekday field: the two day fields are OR-ed as soon as the day-of-month field is
+        // not `*`, however many days it lists
+        let dom = *u.choose(&["1-28", "1-29", "1-30", "1-31", "2-31", "1-30,31", "1-15,16-30", "1-29,30", "*/1"])?;
+        let mask = u.int_in_range(1..=4095u32)?;
+        let mask = match u.int_in_range(0..=3u8)? {
+            0 => mask & 0b1010_0101_1010, // only 30-day months and February
+            1 => 0b10,
+            _ => mask,
+        };
+        let mask = if mask == 0 { 0b1000 } else { mask };
+        let months: Vec<String> = (1..=12).filter(|m| mask & (1 << (m - 1)) != 0).map(|m| m.to_string()).collect();
+        let dow = c16::gen_field(u, FieldKind::Dow, true)?;
+        return Ok(format!("{} {} {} {} {}", if u.ratio(1, 2)? { "0".to_string() } else { minute.clone() }, if u.ratio(1, 2)? { "0".to_string() } else { hour.clone() }, dom, months.join(","), dow));
+    }
     Ok(match special {
         0 => "0 0 29 2 *".to_string(),
         1 => "59 23 31 12 *".to_string(),
